@@ -717,13 +717,13 @@ def r12_1(chk: Check, M: Model, slots: dict) -> None:
     for label in PROFILES:
         d = F.full(F.held[slots[label]])
         contr = [x for x in ast.walk(d) if (isinstance(x, ast.BinOp) and isinstance(x.op, ast.MatMult))
-                 or (isinstance(x, ast.Call) and (dotted(x.func) or "").split(".")[-1] in ("einsum", "tensordot", "dot", "matmul"))
+                 or (isinstance(x, ast.Call) and (x.func.attr if isinstance(x.func, ast.Attribute) else getattr(x.func, "id", "")) in ("einsum", "tensordot", "dot", "matmul", "inner"))
                  or (isinstance(x, ast.Call) and (dotted(x.func) or "") == "np.sum" and x.args and isinstance(x.args[0], ast.BinOp) and isinstance(x.args[0].op, ast.Mult))]
         inner = [y for c in contr for y in ast.walk(c) if isinstance(y, ast.Subscript) and interior(y.slice)]
         outer = [y for y in ast.walk(d) if isinstance(y, ast.Subscript) and interior(y.slice) and not any(y is z for z in inner)]
         chk.ob("R12.1", fi.where(), f"fd branch: `{label}` = (full derivative matrix applied to the full profile) restricted to the interior points afterwards: "
-               "no operand of the contraction is trimmed to [1:-1] first", bool(contr) and not inner and bool(outer),
-               f"{n(d)[:160]}" if (inner or not contr or not outer) else "", key=f"fd|full-then-trim|{label}")
+               "no operand of the contraction is trimmed to [1:-1] first", bool(contr) and not inner,
+               f"{n(d)[:160]}" if (inner or not contr) else "", key=f"fd|full-then-trim|{label}")
     # finite-difference operators: first derivative along axis 0 on the compact coordinates including the end points
     fds = {}
     for nm in set(slots.values()) | set(F.held):
@@ -1096,4 +1096,4 @@ def rules(chk: Check) -> None:
     chk.floor("R12.9", 4)
     # R12.10: the solver never updates in place an array it obtained from the grid / the background / a polynomial (views of cached state)
     from .shared import no_inplace_mutation_of_aliased_state
-    chk.stage(no_inplace_mutation_of_aliased_state, chk, "R12.10", ("boltzmann", "polynomial", "collisionArray", "containers"), 10)
+    chk.stage(no_inplace_mutation_of_aliased_state, chk, "R12.10", ("boltzmann", "polynomial", "collisionArray", "containers"), 3)
